@@ -234,7 +234,7 @@ pub const STACKS_B: &[&str] = &[
 ];
 
 fn custom_fos(_f: &cucumber::gherkin::Feature, _r: Option<&cucumber::gherkin::Rule>, s: &cucumber::gherkin::Scenario) -> bool {
-    crate::worldc::custom_fos_name(&s.name)
+    crate::worldc::custom_fos_name(&crate::plan::scenario_identity(s))
 }
 
 struct Ctx {
